@@ -60,7 +60,7 @@ const SITES: &[(u32, &str, &str)] = &[
 	(3, "duke/src/class_reader.rs", "offset += offset_delta"),
 	(7, "duke/src/tree/descriptor.rs", "size += 2"),
 	(8, "duke/src/tree/descriptor.rs", "size += 1"),
-	(9, "duke/src/simple_class_writer.rs", "compute_signed_offset(opcode_pos + 1 + 2, target)"),
+	(9, "duke/src/simple_class_writer.rs", "opcode_pos + 1 + 2"),
 	(20, "duke/src/class_reader.rs", "r.get_ref()[(r.position() as usize)..]"),
 	(23, "duke/src/class_reader.rs", "_ => unreachable!()"),
 	(21, "duke/src/class_reader.rs", "opcode - opcode::ILOAD_0"),
@@ -80,7 +80,7 @@ const SITES: &[(u32, &str, &str)] = &[
 	(39, "duke/src/simple_class_writer/labels.rs", "Ok((start, end - start))"),
 ];
 /// sites the unchanged tree can reach (the proved domain of the `no_panic_*_partial` theorems excludes them)
-const OPEN_SITES: &[&str] = &["S9"];
+const OPEN_SITES: &[&str] = &[];
 
 thread_local! { static LAST: RefCell<String> = const { RefCell::new(String::new()) }; }
 
@@ -374,8 +374,8 @@ fn outc_ans(o: Outc) -> Ans {
 
 // ---- domain predicate of the writer oracle (mirrors `Total.writeDomain`)
 
-/// inside: no method can grow to 65533 bytes (S9, the one site that is still open)
-fn write_domain(b: &[u8]) -> bool { b.len() <= 24000 }
+/// every file the reader accepts (the restriction to files of at most 24000 bytes went with the repair of S9, 136eeb3)
+fn write_domain(_b: &[u8]) -> bool { true }
 
 fn exec_child(op: &str, args: &[Sexp]) -> Ans {
 	match (op, args) {
